@@ -55,7 +55,25 @@ def run(ctx):
         sp, _ = mpgen.poly_spec(rng, rng.choice(["s", "s2", "u", "r" if rng.random() < 0.3 else "s"]))
         il.append("ipac %s %x %s" % (E.hx(b"ipa-" + bytes([rng.randrange(256)])), z, sp))
         ic.append("ipa z=%s" % ("in-domain" if z < 256 else "out-of-domain"))
+    # evaluations with a special limb structure, at in-domain and out-of-domain points
+    for v in [(1 << 63), (1 << 64) - 1, 0xf800000000000000, 0xfff8000000000000, (1 << 128) - 1, 0xff00000000000000]:
+        i = rng.randrange(256)
+        for z in (i, (i + 1) % 256, 256 + rng.randrange(1000)):
+            il.append("ipac %s %x s:%d=%x,%d=%x" % (E.hx(b"ipa-limbs"), z, i, v, (i + 7) % 256, rng.choice([1, v, R - 1])))
+            ic.append("ipa limb-structured evaluation")
     diff(ctx, il, "CreateIPAProof bytes", ic, impl_shards=2)
+    # serialisation is a function of the proof: the same statements proved (and written) right after
+    # writes that failed at every possible call, one process
+    first = None
+    for l, o in zip(lines, impl[:len(lines)]):
+        if o.startswith("OK "):
+            first = o.split()[1]
+            break
+    if first:
+        hl = []
+        for k in (0, 1, 5, 17):
+            hl += ["mpwr %d %s" % (k, first), lines[0], "mpwr - %s" % first, "mprd - %s" % first]
+        diff(ctx, hl, "proof bytes after failed writes (one process)", ["history:write-fault"] * len(hl), shards=1, impl_shards=1)
     ctx.extra["cpu_settings"] = [str(c) for c in cfgs]
 
 
